@@ -63,6 +63,11 @@ theorem fieldScoreLaws : @ScoreLaws K (fieldScoreOps K) := by
   · intro a; exact one_mul a
   · intro a b c h hc; exact div_le_div_of_nonneg_right h (le_of_lt hc)
   · intro a h; simpa using h
+  · intro q h hd
+    have hd' : (0 : K) < (q.den : K) := Nat.cast_pos.mpr hd
+    rw [le_div_iff₀ hd', one_mul]
+    have : ((q.den : Int) : K) ≤ ((q.num : Int) : K) := Int.cast_le.mpr h
+    simpa using this
 
 end
 
